@@ -6,7 +6,7 @@ ALL = ["C%02d" % i for i in range(1, 21)]
 CLAIMED = {
  "C01": dict(design="DESIGN.md §7 C01",
    technique="Lean 4 proof: invariant + induction over operation histories of the pool models; differential correspondence model vs real Go code; abstract pool monitor on the implementation",
-   text="Machine-checked theorems (uniqueness, in-range, idempotence, forward/reverse agreement) over executable Lean models of the pool implementations for all histories and geometries; model tied to /repo by executing generated operation sequences on the real code and replaying them on the model.",
+   text="Machine-checked theorems (uniqueness, in-range, idempotence, forward/reverse agreement) over executable Lean models of the pool implementations for all histories and geometries; model tied to /repo by executing generated operation sequences on the real code and replaying them on the model. The whole PPPoE server around its IPPool is a further component (pppoesrv, driving the real receiveLoop): Spec.C16PppoeWhole.sessions_hold_distinct_addresses, address_is_pool_entry and held_address_not_free hold for every frame history, and the pool-view clauses of its monitor are proved silent on the model.",
    note="Trusted: Lean kernel + propext/Classical.choice/Quot.sound; the hand-written models (validated by the correspondence run); the Go harness and bngdrv; atomic-step abstraction for concurrent callers."),
  "C04": dict(design="DESIGN.md §7 C04",
    technique="Lean 4 proof: session invariant + induction over frame sequences of the PPPoE server model, ghost authentication flag justified by a separate theorem; differential correspondence against the real frame handlers; monitor on the real session table and emitted frames",
